@@ -134,6 +134,13 @@ func c07GenName(r *simrt.Rand, knobs map[string]int, tag, own, other string) (st
 			"/../../" + tag,
 			"..\\..\\..\\listener\\" + tag,
 			"sub\\..\\..\\..\\..\\" + tag,
+			// dot-dot components decorated with NUL bytes (C strings end there, Go strings do not)
+			"..\x00\\..\x00\\" + other + "\\Download\\" + tag,
+			"..\x00/" + tag,
+			"..\x00/..\x00/..\x00/" + tag,
+			"\x00..\\\x00..\\" + tag,
+			".\x00.\\.\x00.\\" + other + "\\Download\\" + tag,
+			"a\\..\x00\\..\x00\\..\x00\\" + tag,
 		}), c07Traversal
 	default:
 		return pick(r, []string{
